@@ -1,12 +1,13 @@
 (** C13: every live future fires; the worker pool adapts and winds down
     (timeout/timeout.go; model: model/TPool.v over model/THeap.v; proofs:
-    proofs/C13_TPool.v, which builds on proofs/C12_TPool.v and proofs/C12_THeap.v).
+    proofs/C13_TPool.v and proofs/C13_Coverage.v, which build on proofs/C12_TPool.v,
+    proofs/C12_THeap.v, proofs/C12_HeapOrder.v and proofs/C12_PoolOrder.v).
 
     Eventualities are stated as what the model makes provable without a fairness
     assumption on the Go scheduler: coverage invariants ("somebody is about to look at
     the heap, or will wake up in time") and a ranking function for wind-down. *)
 From Coq Require Import List ZArith NArith Bool Lia.
-From GL Require Import model.THeap model.TPool proofs.C12_THeap proofs.C12_TPool proofs.C13_TPool.
+From GL Require Import model.THeap model.TPool proofs.C12_THeap proofs.C12_TPool proofs.C13_TPool proofs.C13_Coverage.
 Import ListNotations.
 Open Scope Z_scope.
 
@@ -91,29 +92,77 @@ Theorem C13_no_early_exit : forall p w t p' mis,
 Proof. exact no_early_exit. Qed.
 Print Assumptions C13_no_early_exit.
 
-(** * coverage.
+(** * coverage (Appendix B), at full strength.
 
-    Full statement aimed at (Appendix B), for every reachable state p, under the timer
-    fact "a wake-up by timer happens strictly after until":
+    For every state p reached by an accepted trace that respects the timer fact "a wake-up
+    by timer happens strictly after until" ([strict_run]: every LWakeTimer w t label has
+    until < t; time.NewTimer is armed after the locked section that computed until from an
+    earlier clock reading):
       covered p  :=  arr (hp p) <> [] ->
-           (exists w, active (pc_of p w))
-        \/ (exists w m u, pc_of p w = Sleeping m u /\ u <= now p)
-        \/ (0 < tokens p /\ exists sleeper)
-        \/ (exists w m u, pc_of p w = Sleeping m u /\ u <= head_fire (hp p)).
-    Proved: [covered] holds initially and is preserved by every step except possibly the
-    exit of a worker with misCount > 1 while the heap is non-empty and another worker
-    exists ([delicate_exit]); for that step the remaining workers are still covered in the
-    weak sense of [C13_invariants] (lateness bounded by idle in the model), and with
-    maxWorkers = 1 the delicate step cannot occur, so [covered] is a full invariant.
-    Missing for the full statement: the ordering argument on sleep start times of
-    Appendix B (a stale sleeper went to sleep before the exiting worker's own capped
-    sleep and has expired), which needs ghost sleep-start stamps. *)
-Theorem C13_coverage_partial : forall p l p',
-  pool_ok p -> pool_inv p -> covered p -> step p l = Some p' ->
-  covered p' \/ delicate_exit p l.
-Proof. exact coverage_step_partial. Qed.
-Print Assumptions C13_coverage_partial.
+           (exists w, active (pc_of p w))                                  (deciding / running)
+        \/ (exists w m u, pc_of p w = Sleeping m u /\ u <= now p)           (expired sleeper)
+        \/ (0 < tokens p /\ exists sleeper)                                 (buffered wake-up)
+        \/ (exists w m u, pc_of p w = Sleeping m u /\ u <= head_fire (hp p)) (wakes in time).
+    The proof is an inductive invariant ([cov_inv], proofs/C13_Coverage.v) under which the
+    exit of a worker with misCount > 1 that leaves only sleepers is a trivial step; the
+    argument sits in "fall asleep" (a worker that is not alone sleeps until the head's fire
+    time or until now + idle, and by F1 nobody sleeps longer) and in "timer wake-up strictly
+    after until" (the head slept for is due, or every possibly stale sleeper has expired). *)
+Theorem C13_coverage : forall (idle maxw wcap tokens0 : Z) (tr : list label) (p : pool),
+  0 <= idle -> 1 <= maxw -> 1 <= wcap -> 0 <= tokens0 <= wcap ->
+  run (init_pool idle maxw wcap tokens0) tr = Some p ->
+  strict_run (init_pool idle maxw wcap tokens0) tr = true ->
+  covered p.
+Proof. exact coverage. Qed.
+Print Assumptions C13_coverage.
 
+(** the invariant behind it, one step at a time *)
+Theorem C13_coverage_step : forall p l p',
+  pool_ok p -> pool_inv p -> cov_inv p -> step p l = Some p' -> strict_label p l = true ->
+  cov_inv p' /\ (pool_inv p' -> covered p').
+Proof.
+  intros p l p' Hok Hinv Hc Hs Hst.
+  pose proof (cov_inv_step p l p' Hok Hinv Hc Hs Hst) as H.
+  split; [exact H|]. intros Hinv'. apply cov_inv_covered; assumption.
+Qed.
+Print Assumptions C13_coverage_step.
+
+(** the timer fact cannot be dropped: with a timer that may fire AT until there is an
+    accepted trace (maxWorkers = 2) that ends in a state that is not covered - a worker
+    wakes at the exact fire time of the head, finds it not yet due (now.After is strict),
+    has slept twice, is not alone and exits; the remaining worker sleeps past the head *)
+Theorem C13_coverage_needs_strict_timers :
+  exists tr p, run (init_pool 50 2 2 0) tr = Some p /\ strict_run (init_pool 50 2 2 0) tr = false /\ ~ covered p.
+Proof. exact coverage_needs_strict_timers. Qed.
+Print Assumptions C13_coverage_needs_strict_timers.
+
+(** * every live future fires, as far as the model can say it without a fair scheduler:
+      the dispatcher is never stuck with a due future.  While a future whose fire time has
+      passed is pending, some worker label (Decide / CbEnd / WakeToken / WakeTimer) is
+      enabled at the current instant or one tick later, and taking it respects the timer
+      fact.  Together with [C12_started_is_minimal] (a pop takes the earliest future) and
+      [C13_wind_down_bounded]-style ranking this is the model-level content of "is
+      eventually started"; that the Go scheduler takes enabled steps is sampled by the
+      correspondence run (bounded lateness with a quiet canary), not proved. *)
+Theorem C13_due_head_progress : forall p,
+  covered p -> arr (hp p) <> [] -> head_fire (hp p) < now p ->
+  exists l, worker_label l = true /\ now p <= label_time l <= now p + 1 /\
+            strict_label p l = true /\ step p l <> None.
+Proof. exact due_head_progress. Qed.
+Print Assumptions C13_due_head_progress.
+
+Theorem C13_never_stuck : forall (idle maxw wcap tokens0 : Z) (tr : list label) (p : pool) (x : fid),
+  0 <= idle -> 1 <= maxw -> 1 <= wcap -> 0 <= tokens0 <= wcap ->
+  run (init_pool idle maxw wcap tokens0) tr = Some p ->
+  strict_run (init_pool idle maxw wcap tokens0) tr = true ->
+  In x (pending p) -> fireT (get (hs (hp p)) x) < now p ->
+  exists l, worker_label l = true /\ now p <= label_time l <= now p + 1 /\
+            strict_label p l = true /\ step p l <> None.
+Proof. exact never_stuck. Qed.
+Print Assumptions C13_never_stuck.
+
+(** coverage for a pool limited to one worker holds without the timer fact (the exit with a
+    non-empty heap needs a second worker) *)
 Theorem C13_coverage_single_worker : forall (idle wcap tokens0 : Z) (tr : list label) (p : pool),
   0 <= idle -> 1 <= wcap -> 0 <= tokens0 <= wcap ->
   run (init_pool idle 1 wcap tokens0) tr = Some p -> covered p.
@@ -187,3 +236,26 @@ Example C13_ex_delicate :
         LWakeTimer 1 54; LDecide 1 54; LWakeTimer 1 105; LDecide 1 105])
   = Some ([(9%N, 0)], 1, [Sleeping 1 53; Gone]).
 Proof. vm_compute. reflexivity. Qed.
+
+(* ... and that trace respects the timer fact, so [C13_coverage] applies to it: the state
+   after the exit is covered by worker 0, which sleeps until 53 <= 1000 *)
+Example C13_ex_delicate_strict :
+  strict_run (init_pool 50 2 2 0)
+       [LCall 1%N 0 0 true 0; LCall 2%N 0 0 true 0; LCall 9%N 1000 0 true 0; LDecide 0 1; LDecide 1 1;
+        LCbEnd 0 2; LDecide 0 2; LCbEnd 1 3; LDecide 1 3; LWakeToken 0 3; LDecide 0 3;
+        LWakeTimer 1 54; LDecide 1 54; LWakeTimer 1 105; LDecide 1 105] = true.
+Proof. vm_compute. reflexivity. Qed.
+
+(* never stuck: future 1 (due at 5) is still pending at 10 because the only worker sleeps
+   until 5 and has not been scheduled yet; the hypotheses of [C13_never_stuck] hold and the
+   enabled label is the worker's timer wake-up *)
+Definition C13_ex_due : list label := [LCall 1%N 5 0 true 0; LDecide 0 1; LCall 2%N 100 10 true 10].
+
+Example C13_ex_due_state :
+  option_map (fun p => (dump (hp p), workers p, tokens p, now p, fireT (get (hs (hp p)) 1%N),
+                        existsb (N.eqb 1%N) (pending p),
+                        match step p (LWakeTimer 0 10) with Some _ => true | None => false end))
+             (run (init_pool 50 2 2 0) C13_ex_due)
+  = Some ([(1%N, 0); (2%N, 1)], [Sleeping 1 5], 1, 10, 5, true, true)
+  /\ strict_run (init_pool 50 2 2 0) C13_ex_due = true.
+Proof. vm_compute. split; reflexivity. Qed.
